@@ -118,7 +118,7 @@ func newSeqGen(r *RNG, tier string, profile string) *seqGen {
 	sizes := []int{1, 7, 33, 64, 200, 4096, 0}
 	g.ifs = sizes[r.Intn(len(sizes))]
 	g.pfs = sizes[r.Intn(len(sizes))]
-	if profile == "c04" || profile == "c11" || profile == "c13" {
+	if profile == "c04" || profile == "c11" || profile == "c13" || profile == "c07" {
 		// GC needs several files
 		g.ifs = []int{1, 33, 64, 200}[r.Intn(4)]
 		g.pfs = []int{1, 33, 64, 200}[r.Intn(4)]
@@ -286,6 +286,21 @@ func (g *seqGen) Next(r *RNG, hist []Op) (Op, bool) {
 		g.pending = append(g.pending, mkOp("view"), mkOp("disk"))
 		return g.openOp(g.bits, g.ifs, g.pfs), true
 	}
+	if g.profile == "c07" && len(hist) > 0 && len(g.pending) == 0 {
+		last := hist[len(hist)-1]
+		// after the views that follow a flush / GC cycle / reopen: the quiescent states C07 is about
+		if last.Name == "disk" && len(hist) >= 3 {
+			for j := len(hist) - 2; j >= 0 && j >= len(hist)-4; j-- {
+				n := hist[j].Name
+				if n == "flush" || n == "pgc" || n == "igc" || (n == "open" && hist[j].Res == "ok") {
+					return mkOp("fsck"), true
+				}
+				if n != "view" && n != "disk" && n != "sizes" {
+					break
+				}
+			}
+		}
+	}
 	if g.profile == "c13" && len(hist) > 0 {
 		last := hist[len(hist)-1]
 		switch last.Name {
@@ -324,8 +339,8 @@ func (g *seqGen) Next(r *RNG, hist []Op) (Op, bool) {
 	}
 	g.step++
 	hx := hex.EncodeToString
-	gcOK := g.kind == "mh" && (g.profile == "c04" || g.profile == "c11" || g.profile == "c13" || g.profile == "all")
-	reopenOK := g.profile == "c02" || g.profile == "all" || g.profile == "c04" || g.profile == "c13"
+	gcOK := g.kind == "mh" && (g.profile == "c04" || g.profile == "c11" || g.profile == "c13" || g.profile == "all" || g.profile == "c07")
+	reopenOK := g.profile == "c02" || g.profile == "all" || g.profile == "c04" || g.profile == "c13" || g.profile == "c07"
 	wGC, wReopen := 0, 0
 	if gcOK {
 		wGC = 10
